@@ -223,514 +223,520 @@ func C17(tier rt.Tier) int {
 					mdl[k] = "v" + k
 				}
 				paths := unionPaths(paths, keys) // lookups: the standard paths and the content's own
-				const origin = 1
-				canon := model.CanonicalMPT(content, origin)
-				ci := walkCanon(canon)
-				nonRoot := ci.nodes[1:]
-				limit := 1 << len(nonRoot)
-				for mask := 0; mask < limit; mask++ {
-					if len(nonRoot) > 9 && popcount(mask) > wideCap {
-						continue
-					}
-					removed := map[string]bool{}
-					var remList []*model.MPTNode
-					for i, n := range nonRoot {
-						if mask&(1<<i) != 0 {
-							removed[string(n.Hash())] = true
-							remList = append(remList, n)
+				// the version the nodes are created at: 1, and for the small contents also 0 (the zero value of a version)
+				origins := []int64{1}
+				if len(keys) <= 2 {
+					origins = append(origins, 0)
+				}
+				for _, origin := range origins {
+					canon := model.CanonicalMPT(content, origin)
+					ci := walkCanon(canon)
+					nonRoot := ci.nodes[1:]
+					limit := 1 << len(nonRoot)
+					for mask := 0; mask < limit; mask++ {
+						if len(nonRoot) > 9 && popcount(mask) > wideCap {
+							continue
 						}
-					}
-					for _, tver := range []int64{origin, origin + 4} {
-						for _, order := range perms(len(remList), permCap) {
-							atomic.AddInt64(&cases, 1)
-							desc := fmt.Sprintf("content %q, removed nodes %s, trie version %d (nodes created at %d), donor order %v", keys, nodeNames(remList), tver, origin, order)
-							replay := map[string]any{"content": keys, "removed_mask": mask, "trie_version": tver, "order": order}
-							if rp := rt.Replay; rp != nil && rp.Raw["content"] != nil && fmt.Sprint(rp.Raw["content"], rp.Raw["removed_mask"], rp.Raw["trie_version"], rp.Raw["order"]) != fmt.Sprint(keys, mask, tver, order) {
-								continue // replay of one recorded case
+						removed := map[string]bool{}
+						var remList []*model.MPTNode
+						for i, n := range nonRoot {
+							if mask&(1<<i) != 0 {
+								removed[string(n.Hash())] = true
+								remList = append(remList, n)
 							}
-							rt.SlotSetJSON(slot, replay) // in-flight note for the supervisor (a damaged store can send a walk into unbounded recursion)
-							func() {
-								defer func() {
-									if r := recover(); r != nil {
-										violate("panic", desc+": panic: "+fmt.Sprint(r), replay)
-									}
-								}()
-								// build the full trie at the origin version, then drop the chosen nodes
-								db := util.NewMemoryNodeDB()
-								t1 := util.NewMerklePatriciaTrie(db, origin, nil, statecache.NewEmpty())
-								for _, k := range keys {
-									if _, err := t1.Insert(util.Path(k), val(mdl[k])); err != nil {
-										panic(err)
-									}
+						}
+						for _, tver := range []int64{origin, origin + 4} {
+							for _, order := range perms(len(remList), permCap) {
+								atomic.AddInt64(&cases, 1)
+								desc := fmt.Sprintf("content %q, removed nodes %s, trie version %d (nodes created at %d), donor order %v", keys, nodeNames(remList), tver, origin, order)
+								replay := map[string]any{"content": keys, "removed_mask": mask, "trie_version": tver, "order": order, "origin": origin}
+								if rp := rt.Replay; rp != nil && rp.Raw["content"] != nil && (fmt.Sprint(rp.Raw["content"], rp.Raw["removed_mask"], rp.Raw["trie_version"], rp.Raw["order"]) != fmt.Sprint(keys, mask, tver, order) || (rp.Raw["origin"] != nil && fmt.Sprint(rp.Raw["origin"]) != fmt.Sprint(origin)) || (rp.Raw["origin"] == nil && origin != 1)) {
+									continue // replay of one recorded case
 								}
-								root := t1.GetRoot()
-								if !bytes.Equal(root, canon.Hash()) {
-									violate("canon", desc+": trie root differs from the canonical root (C02's business)", replay)
-									return
-								}
-								donor := &donorDB{order: order}
-								for _, n := range remList {
-									nd, err := db.GetNode(n.Hash())
-									if err != nil {
-										panic(err)
-									}
-									donor.keys = append(donor.keys, util.Key(n.Hash()))
-									donor.nodes = append(donor.nodes, nd.CloneNode())
-									_ = db.DeleteNode(n.Hash())
-								}
-								t2 := util.NewMerklePatriciaTrie(db, util.Sequence(tver), root, statecache.NewEmpty())
-								// 1. detection
-								has, err := t2.HasMissingNodes(context.Background())
-								if err != nil || has != (len(remList) > 0) {
-									violate("has", fmt.Sprintf("%s: HasMissingNodes = %v, %v; %d reachable nodes are absent", desc, has, err, len(remList)), replay)
-									return
-								}
-								t2 = util.NewMerklePatriciaTrie(db, util.Sequence(tver), root, statecache.NewEmpty())
-								got, err := t2.GetAllMissingNodes()
-								want := map[string]bool{}
-								for h := range removed {
-									if !removed[ci.parent[h]] {
-										p := ci.parent[h]
-										top := true
-										for p != "" {
-											if removed[p] {
-												top = false
-											}
-											p = ci.parent[p]
+								rt.SlotSetJSON(slot, replay) // in-flight note for the supervisor (a damaged store can send a walk into unbounded recursion)
+								func() {
+									defer func() {
+										if r := recover(); r != nil {
+											violate("panic", desc+": panic: "+fmt.Sprint(r), replay)
 										}
-										if top {
-											want[h] = true
+									}()
+									// build the full trie at the origin version, then drop the chosen nodes
+									db := util.NewMemoryNodeDB()
+									t1 := util.NewMerklePatriciaTrie(db, util.Sequence(origin), nil, statecache.NewEmpty())
+									for _, k := range keys {
+										if _, err := t1.Insert(util.Path(k), val(mdl[k])); err != nil {
+											panic(err)
 										}
 									}
-								}
-								gotSet := map[string]bool{}
-								for _, k := range got {
-									gotSet[string(k)] = true
-								}
-								if err != nil || !sameSet(gotSet, want) || len(got) != len(gotSet) {
-									violate("all", fmt.Sprintf("%s: GetAllMissingNodes = %s, %v; absent nodes reachable through present ones: %s", desc, hexSet(gotSet), err, hexSet(want)), replay)
-									return
-								}
-								// 1b. a full iteration (handler tolerating absent nodes) records every absent node it runs into
-								t2 = util.NewMerklePatriciaTrie(db, util.Sequence(tver), root, statecache.NewEmpty())
-								seenAbsent := map[string]bool{}
-								_ = t2.Iterate(context.Background(), func(ctx context.Context, path util.Path, key util.Key, node util.Node) error {
-									if node == nil {
-										seenAbsent[string(key)] = true
-									}
-									return nil
-								}, util.NodeTypeLeafNode|util.NodeTypeFullNode|util.NodeTypeExtensionNode|util.NodeTypeValueNode)
-								recorded := map[string]bool{}
-								for _, k := range t2.GetMissingNodeKeys() {
-									recorded[string(k)] = true
-								}
-								if !sameSet(seenAbsent, want) || !sameSet(recorded, want) {
-									violate("iterate-missing", fmt.Sprintf("%s: a full Iterate reported absent nodes %s to its handler and recorded %s in GetMissingNodeKeys; absent nodes reachable through present ones: %s", desc, hexSet(seenAbsent), hexSet(recorded), hexSet(want)), replay)
-									return
-								}
-								// 2. lookups
-								t2 = util.NewMerklePatriciaTrie(db, util.Sequence(tver), root, statecache.NewEmpty())
-								for _, p := range paths {
-									atomic.AddInt64(&lookups, 1)
-									hits := false
-									for _, h := range crossed(canon, p) {
-										if removed[string(h)] {
-											hits = true
-										}
-									}
-									v, err := t2.GetNodeValueRaw(util.Path(p))
-									wantV, present := mdl[p]
-									switch {
-									case hits:
-										if err == nil || err == util.ErrValueNotPresent {
-											violate("lookup-under-absent", fmt.Sprintf("%s: lookup(%q) crosses an absent node but returned %q, %v", desc, p, v, err), replay)
-											return
-										}
-									case present:
-										if err != nil || string(v) != wantV {
-											violate("lookup", fmt.Sprintf("%s: lookup(%q) = %q, %v; want %q", desc, p, v, err, wantV), replay)
-											return
-										}
-									default:
-										if err != util.ErrValueNotPresent {
-											violate("lookup-absent", fmt.Sprintf("%s: lookup(%q) = %q, %v; want 'value not present'", desc, p, v, err), replay)
-											return
-										}
-									}
-								}
-								// 2a. the same detection through LAYERED stores (an empty writable level over the damaged store, and a
-								// second empty level over that): "not found" then comes out of the lower level(s)
-								for depth := 1; depth <= 2; depth++ {
-									var vdb util.NodeDB = db
-									for i := 0; i < depth; i++ {
-										vdb = util.NewLevelNodeDB(util.NewMemoryNodeDB(), vdb, false)
-									}
-									open := func() *util.MerklePatriciaTrie {
-										return util.NewMerklePatriciaTrie(vdb, util.Sequence(tver), root, statecache.NewEmpty())
-									}
-									lfail := ""
-									if has, err := open().HasMissingNodes(context.Background()); err != nil || has != (len(remList) > 0) {
-										lfail = fmt.Sprintf("HasMissingNodes = %v, %v; %d reachable nodes are absent", has, err, len(remList))
-									}
-									if lfail == "" {
-										got, err := open().GetAllMissingNodes()
-										gs := map[string]bool{}
-										for _, k := range got {
-											gs[string(k)] = true
-										}
-										if err != nil || !sameSet(gs, want) || len(got) != len(gs) {
-											lfail = fmt.Sprintf("GetAllMissingNodes = %s, %v; absent nodes reachable through present ones: %s", hexSet(gs), err, hexSet(want))
-										}
-									}
-									if lfail == "" {
-										tl := open()
-										seen := map[string]bool{}
-										_ = tl.Iterate(context.Background(), func(ctx context.Context, path util.Path, key util.Key, node util.Node) error {
-											if node == nil {
-												seen[string(key)] = true
-											}
-											return nil
-										}, util.NodeTypeLeafNode|util.NodeTypeFullNode|util.NodeTypeExtensionNode|util.NodeTypeValueNode)
-										rec := map[string]bool{}
-										for _, k := range tl.GetMissingNodeKeys() {
-											rec[string(k)] = true
-										}
-										if !sameSet(seen, want) || !sameSet(rec, want) {
-											lfail = fmt.Sprintf("a full Iterate reported absent nodes %s to its handler and recorded %s; absent nodes reachable through present ones: %s", hexSet(seen), hexSet(rec), hexSet(want))
-										}
-									}
-									if lfail == "" {
-										tl := open()
-										for _, p := range paths {
-											hits := false
-											for _, h := range crossed(canon, p) {
-												if removed[string(h)] {
-													hits = true
-												}
-											}
-											v, err := tl.GetNodeValueRaw(util.Path(p))
-											wantV, present := mdl[p]
-											switch {
-											case hits && (err == nil || err == util.ErrValueNotPresent):
-												lfail = fmt.Sprintf("lookup(%q) crosses an absent node but returned %q, %v", p, v, err)
-											case !hits && present && (err != nil || string(v) != wantV):
-												lfail = fmt.Sprintf("lookup(%q) = %q, %v; want %q", p, v, err, wantV)
-											case !hits && !present && err != util.ErrValueNotPresent:
-												lfail = fmt.Sprintf("lookup(%q) = %q, %v; want 'value not present'", p, v, err)
-											}
-											if lfail != "" {
-												break
-											}
-										}
-									}
-									if lfail != "" {
-										violate("layered:"+lfail[:min(len(lfail), 20)], fmt.Sprintf("%s: the trie opened on %d empty writable level(s) over the damaged store: %s", desc, depth, lfail), replay)
+									root := t1.GetRoot()
+									if !bytes.Equal(root, canon.Hash()) {
+										violate("canon", desc+": trie root differs from the canonical root (C02's business)", replay)
 										return
 									}
-								}
-								// 2b. a repair that is interrupted by a store write error must leave the trie telling the truth
-								// about what is still absent (first donor order only: the failure position is the variable)
-								if len(remList) > 0 && len(order) > 0 && order[0] == 0 && sort.IntsAreSorted(order) {
-									for failAt := 0; failAt < len(remList); failAt++ {
-										fdb := &failDB{MemoryNodeDB: util.NewMemoryNodeDB(), failAt: -1}
-										_ = db.Iterate(context.Background(), func(ctx context.Context, key util.Key, node util.Node) error {
-											return fdb.MemoryNodeDB.PutNode(key, node)
-										})
-										tf := util.NewMerklePatriciaTrie(fdb, util.Sequence(tver), root, statecache.NewEmpty())
-										fdb.failAt, fdb.puts = failAt, 0
-										err := tf.MergeDB(donor, root, nil)
-										fdb.failAt = -1
-										if err == nil {
-											violate("mergedb-swallow", fmt.Sprintf("%s: store write %d of the repair failed but MergeDB returned nil", desc, failAt), replay)
-											return
+									donor := &donorDB{order: order}
+									for _, n := range remList {
+										nd, err := db.GetNode(n.Hash())
+										if err != nil {
+											panic(err)
 										}
-										still := map[string]bool{}
-										for h := range removed {
-											if _, e := fdb.MemoryNodeDB.GetNode(util.Key(h)); e != nil {
-												still[h] = true
-											}
-										}
-										wantF := map[string]bool{}
-										for h := range still {
+										donor.keys = append(donor.keys, util.Key(n.Hash()))
+										donor.nodes = append(donor.nodes, nd.CloneNode())
+										_ = db.DeleteNode(n.Hash())
+									}
+									t2 := util.NewMerklePatriciaTrie(db, util.Sequence(tver), root, statecache.NewEmpty())
+									// 1. detection
+									has, err := t2.HasMissingNodes(context.Background())
+									if err != nil || has != (len(remList) > 0) {
+										violate("has", fmt.Sprintf("%s: HasMissingNodes = %v, %v; %d reachable nodes are absent", desc, has, err, len(remList)), replay)
+										return
+									}
+									t2 = util.NewMerklePatriciaTrie(db, util.Sequence(tver), root, statecache.NewEmpty())
+									got, err := t2.GetAllMissingNodes()
+									want := map[string]bool{}
+									for h := range removed {
+										if !removed[ci.parent[h]] {
+											p := ci.parent[h]
 											top := true
-											for p := ci.parent[h]; p != ""; p = ci.parent[p] {
-												if still[p] {
+											for p != "" {
+												if removed[p] {
 													top = false
 												}
+												p = ci.parent[p]
 											}
 											if top {
-												wantF[h] = true
+												want[h] = true
 											}
 										}
-										gotF, errF := tf.GetAllMissingNodes()
-										gs := map[string]bool{}
-										for _, k := range gotF {
-											gs[string(k)] = true
+									}
+									gotSet := map[string]bool{}
+									for _, k := range got {
+										gotSet[string(k)] = true
+									}
+									if err != nil || !sameSet(gotSet, want) || len(got) != len(gotSet) {
+										violate("all", fmt.Sprintf("%s: GetAllMissingNodes = %s, %v; absent nodes reachable through present ones: %s", desc, hexSet(gotSet), err, hexSet(want)), replay)
+										return
+									}
+									// 1b. a full iteration (handler tolerating absent nodes) records every absent node it runs into
+									t2 = util.NewMerklePatriciaTrie(db, util.Sequence(tver), root, statecache.NewEmpty())
+									seenAbsent := map[string]bool{}
+									_ = t2.Iterate(context.Background(), func(ctx context.Context, path util.Path, key util.Key, node util.Node) error {
+										if node == nil {
+											seenAbsent[string(key)] = true
 										}
-										if errF != nil || !sameSet(gs, wantF) {
-											violate("mergedb-fail-missing", fmt.Sprintf("%s: store write %d of the repair failed; afterwards the same trie reports missing nodes %s (%v), the store lacks %s", desc, failAt, hexSet(gs), errF, hexSet(wantF)), replay)
-											return
-										}
-										for _, p := range paths {
-											hits := false
-											for _, h := range crossed(canon, p) {
-												if still[string(h)] {
-													hits = true
-												}
+										return nil
+									}, util.NodeTypeLeafNode|util.NodeTypeFullNode|util.NodeTypeExtensionNode|util.NodeTypeValueNode)
+									recorded := map[string]bool{}
+									for _, k := range t2.GetMissingNodeKeys() {
+										recorded[string(k)] = true
+									}
+									if !sameSet(seenAbsent, want) || !sameSet(recorded, want) {
+										violate("iterate-missing", fmt.Sprintf("%s: a full Iterate reported absent nodes %s to its handler and recorded %s in GetMissingNodeKeys; absent nodes reachable through present ones: %s", desc, hexSet(seenAbsent), hexSet(recorded), hexSet(want)), replay)
+										return
+									}
+									// 2. lookups
+									t2 = util.NewMerklePatriciaTrie(db, util.Sequence(tver), root, statecache.NewEmpty())
+									for _, p := range paths {
+										atomic.AddInt64(&lookups, 1)
+										hits := false
+										for _, h := range crossed(canon, p) {
+											if removed[string(h)] {
+												hits = true
 											}
-											if v, err := tf.GetNodeValueRaw(util.Path(p)); hits && (err == nil || err == util.ErrValueNotPresent) {
-												violate("mergedb-fail-lookup", fmt.Sprintf("%s: store write %d of the repair failed; lookup(%q) crosses a node the store still lacks but returned %q, %v", desc, failAt, p, v, err), replay)
+										}
+										v, err := t2.GetNodeValueRaw(util.Path(p))
+										wantV, present := mdl[p]
+										switch {
+										case hits:
+											if err == nil || err == util.ErrValueNotPresent {
+												violate("lookup-under-absent", fmt.Sprintf("%s: lookup(%q) crosses an absent node but returned %q, %v", desc, p, v, err), replay)
+												return
+											}
+										case present:
+											if err != nil || string(v) != wantV {
+												violate("lookup", fmt.Sprintf("%s: lookup(%q) = %q, %v; want %q", desc, p, v, err, wantV), replay)
+												return
+											}
+										default:
+											if err != util.ErrValueNotPresent {
+												violate("lookup-absent", fmt.Sprintf("%s: lookup(%q) = %q, %v; want 'value not present'", desc, p, v, err), replay)
 												return
 											}
 										}
 									}
-								}
-								// 2c. a delete on the damaged trie either fails or leaves the canonical root of the remaining content
-								if len(order) == 0 || (order[0] == 0 && sort.IntsAreSorted(order)) {
-									for _, p := range keys {
-										cdb := util.NewMemoryNodeDB()
-										_ = db.Iterate(context.Background(), func(ctx context.Context, key util.Key, node util.Node) error { return cdb.PutNode(key, node) })
-										td := util.NewMerklePatriciaTrie(cdb, util.Sequence(origin), root, statecache.NewEmpty())
-										nr, err := td.Delete(util.Path(p))
-										if err != nil {
-											continue
+									// 2a. the same detection through LAYERED stores (an empty writable level over the damaged store, and a
+									// second empty level over that): "not found" then comes out of the lower level(s)
+									for depth := 1; depth <= 2; depth++ {
+										var vdb util.NodeDB = db
+										for i := 0; i < depth; i++ {
+											vdb = util.NewLevelNodeDB(util.NewMemoryNodeDB(), vdb, false)
 										}
-										rest := map[string][]byte{}
-										for k, v := range content {
-											if k != p {
-												rest[k] = v
+										open := func() *util.MerklePatriciaTrie {
+											return util.NewMerklePatriciaTrie(vdb, util.Sequence(tver), root, statecache.NewEmpty())
+										}
+										lfail := ""
+										if has, err := open().HasMissingNodes(context.Background()); err != nil || has != (len(remList) > 0) {
+											lfail = fmt.Sprintf("HasMissingNodes = %v, %v; %d reachable nodes are absent", has, err, len(remList))
+										}
+										if lfail == "" {
+											got, err := open().GetAllMissingNodes()
+											gs := map[string]bool{}
+											for _, k := range got {
+												gs[string(k)] = true
+											}
+											if err != nil || !sameSet(gs, want) || len(got) != len(gs) {
+												lfail = fmt.Sprintf("GetAllMissingNodes = %s, %v; absent nodes reachable through present ones: %s", hexSet(gs), err, hexSet(want))
 											}
 										}
-										if want := model.CanonicalMPT(rest, origin).Hash(); !bytes.Equal(nr, want) {
-											violate("delete-damaged", fmt.Sprintf("%s: Delete(%q) on the damaged trie reported success with root %x; the canonical root of the remaining content is %x", desc, p, nr, want), replay)
+										if lfail == "" {
+											tl := open()
+											seen := map[string]bool{}
+											_ = tl.Iterate(context.Background(), func(ctx context.Context, path util.Path, key util.Key, node util.Node) error {
+												if node == nil {
+													seen[string(key)] = true
+												}
+												return nil
+											}, util.NodeTypeLeafNode|util.NodeTypeFullNode|util.NodeTypeExtensionNode|util.NodeTypeValueNode)
+											rec := map[string]bool{}
+											for _, k := range tl.GetMissingNodeKeys() {
+												rec[string(k)] = true
+											}
+											if !sameSet(seen, want) || !sameSet(rec, want) {
+												lfail = fmt.Sprintf("a full Iterate reported absent nodes %s to its handler and recorded %s; absent nodes reachable through present ones: %s", hexSet(seen), hexSet(rec), hexSet(want))
+											}
+										}
+										if lfail == "" {
+											tl := open()
+											for _, p := range paths {
+												hits := false
+												for _, h := range crossed(canon, p) {
+													if removed[string(h)] {
+														hits = true
+													}
+												}
+												v, err := tl.GetNodeValueRaw(util.Path(p))
+												wantV, present := mdl[p]
+												switch {
+												case hits && (err == nil || err == util.ErrValueNotPresent):
+													lfail = fmt.Sprintf("lookup(%q) crosses an absent node but returned %q, %v", p, v, err)
+												case !hits && present && (err != nil || string(v) != wantV):
+													lfail = fmt.Sprintf("lookup(%q) = %q, %v; want %q", p, v, err, wantV)
+												case !hits && !present && err != util.ErrValueNotPresent:
+													lfail = fmt.Sprintf("lookup(%q) = %q, %v; want 'value not present'", p, v, err)
+												}
+												if lfail != "" {
+													break
+												}
+											}
+										}
+										if lfail != "" {
+											violate("layered:"+lfail[:min(len(lfail), 20)], fmt.Sprintf("%s: the trie opened on %d empty writable level(s) over the damaged store: %s", desc, depth, lfail), replay)
 											return
 										}
 									}
-								}
-								// 3a. store-level repair: the donor store merged into a copy of the damaged store with MergeState
-								{
-									sdb := util.NewMemoryNodeDB()
-									_ = db.Iterate(context.Background(), func(ctx context.Context, key util.Key, node util.Node) error { return sdb.PutNode(key, node) })
-									// a live trie on the damaged store has met the absent nodes (detection, listing, lookups) before the
-									// store is repaired underneath it: "the trie again reads its full content" is about this object too
-									live := util.NewMerklePatriciaTrie(sdb, util.Sequence(tver), root, statecache.NewEmpty())
-									_, _ = live.HasMissingNodes(context.Background())
-									_, _ = live.GetAllMissingNodes()
-									for _, p := range paths {
-										_, _ = live.GetNodeValueRaw(util.Path(p))
-									}
-									before := donor.fingerprint()
-									if err := util.MergeState(context.Background(), donor, sdb); err != nil {
-										violate("mergestate", desc+": MergeState returned "+err.Error(), replay)
-										return
-									}
-									fail := ""
-									if has, err := live.HasMissingNodes(context.Background()); err != nil || has {
-										fail = fmt.Sprintf("the trie object that had met the absent nodes still reports missing nodes after MergeState repaired its store (%v, %v)", has, err)
-									} else if got, err := live.GetAllMissingNodes(); err != nil || len(got) != 0 {
-										fail = fmt.Sprintf("the trie object that had met the absent nodes still lists %d missing nodes after MergeState repaired its store (%v)", len(got), err)
-									} else if f := viewOf(live, mdl, paths); f != "" {
-										fail = "the trie object that had met the absent nodes, after MergeState repaired its store: " + f
-									} else if !bytes.Equal(live.GetRoot(), root) {
-										fail = fmt.Sprintf("the trie object that had met the absent nodes has root %x after the repair, %x before", live.GetRoot(), root)
-									}
-									if after := donor.fingerprint(); after != before {
-										fail = "MergeState changed the donor store's node objects: " + lineDiff(strings.ReplaceAll(before, ";", "\n"), strings.ReplaceAll(after, ";", "\n"))
-									}
-									if fail == "" {
-										_ = sdb.Iterate(context.Background(), func(ctx context.Context, key util.Key, node util.Node) error {
-											if fail == "" && !bytes.Equal(node.GetHashBytes(), key) {
-												fail = fmt.Sprintf("after MergeState the store holds under key %x a node hashing to %x", []byte(key), node.GetHashBytes())
+									// 2b. a repair that is interrupted by a store write error must leave the trie telling the truth
+									// about what is still absent (first donor order only: the failure position is the variable)
+									if len(remList) > 0 && len(order) > 0 && order[0] == 0 && sort.IntsAreSorted(order) {
+										for failAt := 0; failAt < len(remList); failAt++ {
+											fdb := &failDB{MemoryNodeDB: util.NewMemoryNodeDB(), failAt: -1}
+											_ = db.Iterate(context.Background(), func(ctx context.Context, key util.Key, node util.Node) error {
+												return fdb.MemoryNodeDB.PutNode(key, node)
+											})
+											tf := util.NewMerklePatriciaTrie(fdb, util.Sequence(tver), root, statecache.NewEmpty())
+											fdb.failAt, fdb.puts = failAt, 0
+											err := tf.MergeDB(donor, root, nil)
+											fdb.failAt = -1
+											if err == nil {
+												violate("mergedb-swallow", fmt.Sprintf("%s: store write %d of the repair failed but MergeDB returned nil", desc, failAt), replay)
+												return
 											}
-											return nil
-										})
-									}
-									if fail == "" {
-										ts := util.NewMerklePatriciaTrie(sdb, util.Sequence(tver), root, statecache.NewEmpty())
-										if has, err := ts.HasMissingNodes(context.Background()); err != nil || has {
-											fail = fmt.Sprintf("after MergeState a fresh trie on the store still reports missing nodes (%v, %v)", has, err)
-										} else if f := viewOf(util.NewMerklePatriciaTrie(sdb, util.Sequence(tver), root, statecache.NewEmpty()), mdl, paths); f != "" {
-											fail = "after MergeState: " + f
+											still := map[string]bool{}
+											for h := range removed {
+												if _, e := fdb.MemoryNodeDB.GetNode(util.Key(h)); e != nil {
+													still[h] = true
+												}
+											}
+											wantF := map[string]bool{}
+											for h := range still {
+												top := true
+												for p := ci.parent[h]; p != ""; p = ci.parent[p] {
+													if still[p] {
+														top = false
+													}
+												}
+												if top {
+													wantF[h] = true
+												}
+											}
+											gotF, errF := tf.GetAllMissingNodes()
+											gs := map[string]bool{}
+											for _, k := range gotF {
+												gs[string(k)] = true
+											}
+											if errF != nil || !sameSet(gs, wantF) {
+												violate("mergedb-fail-missing", fmt.Sprintf("%s: store write %d of the repair failed; afterwards the same trie reports missing nodes %s (%v), the store lacks %s", desc, failAt, hexSet(gs), errF, hexSet(wantF)), replay)
+												return
+											}
+											for _, p := range paths {
+												hits := false
+												for _, h := range crossed(canon, p) {
+													if still[string(h)] {
+														hits = true
+													}
+												}
+												if v, err := tf.GetNodeValueRaw(util.Path(p)); hits && (err == nil || err == util.ErrValueNotPresent) {
+													violate("mergedb-fail-lookup", fmt.Sprintf("%s: store write %d of the repair failed; lookup(%q) crosses a node the store still lacks but returned %q, %v", desc, failAt, p, v, err), replay)
+													return
+												}
+											}
 										}
 									}
-									if fail != "" {
-										violate("mergestate:"+fail[:min(len(fail), 30)], desc+": "+fail, replay)
-										return
-									}
-								}
-								// 3b. the donor is a LAYERED store whose own trie has moved on since (it replaced every value, so
-								// the nodes of the state being repaired are marked deleted in the donor's upper level while its
-								// lower level still holds them): the repair must still find them
-								if len(remList) > 0 && order[0] == 0 && sort.IntsAreSorted(order) {
-									lower := util.NewMemoryNodeDB()
-									_ = db.Iterate(context.Background(), func(ctx context.Context, key util.Key, node util.Node) error {
-										return lower.PutNode(key, node.CloneNode())
-									})
-									for i := range donor.keys {
-										_ = lower.PutNode(donor.keys[i], donor.nodes[i].CloneNode())
-									}
-									lvl := util.NewLevelNodeDB(util.NewMemoryNodeDB(), lower, false)
-									dt := util.NewMerklePatriciaTrie(lvl, util.Sequence(origin+1), root, statecache.NewEmpty())
-									for i, k := range keys {
-										var err error
-										if i == 0 && len(keys) > 1 {
-											_, err = dt.Delete(util.Path(k))
-										} else {
-											_, err = dt.Insert(util.Path(k), val("moved-on"))
-										}
-										if err != nil {
-											panic(err)
+									// 2c. a delete on the damaged trie either fails or leaves the canonical root of the remaining content
+									if len(order) == 0 || (order[0] == 0 && sort.IntsAreSorted(order)) {
+										for _, p := range keys {
+											cdb := util.NewMemoryNodeDB()
+											_ = db.Iterate(context.Background(), func(ctx context.Context, key util.Key, node util.Node) error { return cdb.PutNode(key, node) })
+											td := util.NewMerklePatriciaTrie(cdb, util.Sequence(origin), root, statecache.NewEmpty())
+											nr, err := td.Delete(util.Path(p))
+											if err != nil {
+												continue
+											}
+											rest := map[string][]byte{}
+											for k, v := range content {
+												if k != p {
+													rest[k] = v
+												}
+											}
+											if want := model.CanonicalMPT(rest, origin).Hash(); !bytes.Equal(nr, want) {
+												violate("delete-damaged", fmt.Sprintf("%s: Delete(%q) on the damaged trie reported success with root %x; the canonical root of the remaining content is %x", desc, p, nr, want), replay)
+												return
+											}
 										}
 									}
-									for _, via := range []string{"MergeState", "MergeDB"} {
+									// 3a. store-level repair: the donor store merged into a copy of the damaged store with MergeState
+									{
 										sdb := util.NewMemoryNodeDB()
 										_ = db.Iterate(context.Background(), func(ctx context.Context, key util.Key, node util.Node) error { return sdb.PutNode(key, node) })
-										var err error
-										if via == "MergeState" {
-											err = util.MergeState(context.Background(), lvl, sdb)
-										} else {
-											err = util.NewMerklePatriciaTrie(sdb, util.Sequence(tver), root, statecache.NewEmpty()).MergeDB(lvl, root, nil)
+										// a live trie on the damaged store has met the absent nodes (detection, listing, lookups) before the
+										// store is repaired underneath it: "the trie again reads its full content" is about this object too
+										live := util.NewMerklePatriciaTrie(sdb, util.Sequence(tver), root, statecache.NewEmpty())
+										_, _ = live.HasMissingNodes(context.Background())
+										_, _ = live.GetAllMissingNodes()
+										for _, p := range paths {
+											_, _ = live.GetNodeValueRaw(util.Path(p))
+										}
+										before := donor.fingerprint()
+										if err := util.MergeState(context.Background(), donor, sdb); err != nil {
+											violate("mergestate", desc+": MergeState returned "+err.Error(), replay)
+											return
 										}
 										fail := ""
-										if err != nil {
-											fail = via + " returned " + err.Error()
-										} else {
+										if has, err := live.HasMissingNodes(context.Background()); err != nil || has {
+											fail = fmt.Sprintf("the trie object that had met the absent nodes still reports missing nodes after MergeState repaired its store (%v, %v)", has, err)
+										} else if got, err := live.GetAllMissingNodes(); err != nil || len(got) != 0 {
+											fail = fmt.Sprintf("the trie object that had met the absent nodes still lists %d missing nodes after MergeState repaired its store (%v)", len(got), err)
+										} else if f := viewOf(live, mdl, paths); f != "" {
+											fail = "the trie object that had met the absent nodes, after MergeState repaired its store: " + f
+										} else if !bytes.Equal(live.GetRoot(), root) {
+											fail = fmt.Sprintf("the trie object that had met the absent nodes has root %x after the repair, %x before", live.GetRoot(), root)
+										}
+										if after := donor.fingerprint(); after != before {
+											fail = "MergeState changed the donor store's node objects: " + lineDiff(strings.ReplaceAll(before, ";", "\n"), strings.ReplaceAll(after, ";", "\n"))
+										}
+										if fail == "" {
+											_ = sdb.Iterate(context.Background(), func(ctx context.Context, key util.Key, node util.Node) error {
+												if fail == "" && !bytes.Equal(node.GetHashBytes(), key) {
+													fail = fmt.Sprintf("after MergeState the store holds under key %x a node hashing to %x", []byte(key), node.GetHashBytes())
+												}
+												return nil
+											})
+										}
+										if fail == "" {
 											ts := util.NewMerklePatriciaTrie(sdb, util.Sequence(tver), root, statecache.NewEmpty())
 											if has, err := ts.HasMissingNodes(context.Background()); err != nil || has {
-												fail = fmt.Sprintf("after %s a fresh trie on the store still reports missing nodes (%v, %v)", via, has, err)
+												fail = fmt.Sprintf("after MergeState a fresh trie on the store still reports missing nodes (%v, %v)", has, err)
 											} else if f := viewOf(util.NewMerklePatriciaTrie(sdb, util.Sequence(tver), root, statecache.NewEmpty()), mdl, paths); f != "" {
-												fail = "after " + via + ": " + f
+												fail = "after MergeState: " + f
 											}
 										}
 										if fail != "" {
-											violate("layered-donor:"+via, desc+": repair from a layered donor store whose own trie has moved on: "+fail, replay)
+											violate("mergestate:"+fail[:min(len(fail), 30)], desc+": "+fail, replay)
 											return
 										}
 									}
-								}
-								// 3d. the repair is made by the trie object that BUILT the state (its node cache still holds every node
-								// that has vanished from the store behind it); other tries on the store must see the repair
-								if len(remList) > 0 && tver == origin && order[0] == 0 && sort.IntsAreSorted(order) {
-									if err := t1.MergeDB(donor, root, nil); err != nil {
-										violate("live-repair", desc+": MergeDB on the trie object that built the state returned "+err.Error(), replay)
-										return
-									}
-									fresh := util.NewMerklePatriciaTrie(db, util.Sequence(tver), root, statecache.NewEmpty())
-									if has, err := fresh.HasMissingNodes(context.Background()); err != nil || has {
-										violate("live-repair", fmt.Sprintf("%s: repaired through the trie object that built the state (warm node cache); a fresh trie on the store still reports missing nodes (%v, %v)", desc, has, err), replay)
-										return
-									}
-									// put the store back into its damaged state for the steps below
-									for _, n := range remList {
-										_ = db.DeleteNode(n.Hash())
-									}
-								}
-								// 3c. the donor's nodes arrive over the wire (Encode -> CreateNode) and carry a version mark that
-								// differs from their origin (as nodes visited by a pruning pass do); the hash covers the origin only
-								if len(remList) > 0 && order[0] == 0 && sort.IntsAreSorted(order) {
-									wire := &donorDB{order: order}
-									for i, n := range donor.nodes {
-										c := n.CloneNode()
-										c.SetVersion(c.GetOrigin() + 3)
-										dn, err := util.CreateNode(bytes.NewReader(c.Encode()))
-										if err != nil {
-											violate("wire-decode", desc+": a marked node does not decode from its own encoding: "+err.Error(), replay)
-											return
-										}
-										wire.keys = append(wire.keys, donor.keys[i])
-										wire.nodes = append(wire.nodes, dn)
-									}
-									sdb := util.NewMemoryNodeDB()
-									_ = db.Iterate(context.Background(), func(ctx context.Context, key util.Key, node util.Node) error { return sdb.PutNode(key, node) })
-									tw := util.NewMerklePatriciaTrie(sdb, util.Sequence(tver), root, statecache.NewEmpty())
-									fail := ""
-									if err := tw.MergeDB(wire, root, nil); err != nil {
-										fail = "MergeDB returned " + err.Error()
-									} else if has, err := util.NewMerklePatriciaTrie(sdb, util.Sequence(tver), root, statecache.NewEmpty()).HasMissingNodes(context.Background()); err != nil || has {
-										fail = fmt.Sprintf("after MergeDB a fresh trie on the store still reports missing nodes (%v, %v)", has, err)
-									} else if f := viewOf(util.NewMerklePatriciaTrie(sdb, util.Sequence(tver), root, statecache.NewEmpty()), mdl, paths); f != "" {
-										fail = "after MergeDB: " + f
-									}
-									if fail != "" {
-										violate("wire-donor", desc+": repair from donor nodes that were encoded, carry a version mark (origin+3) and were decoded again: "+fail, replay)
-										return
-									}
-								}
-								// 3e. the donor hands the right nodes out under WRONG keys (a peer answering with mis-filed entries:
-								// keys rotated by one, or a made-up key for a single node): MergeDB files what it takes over under
-								// each node's own hash, so the repair succeeds and no stored key differs from its node's hash
-								if len(remList) > 0 && order[0] == 0 && sort.IntsAreSorted(order) {
-									mis := &donorDB{order: order}
-									for i, n := range donor.nodes {
-										mis.nodes = append(mis.nodes, n.CloneNode())
-										if len(donor.keys) > 1 {
-											mis.keys = append(mis.keys, donor.keys[(i+1)%len(donor.keys)])
-										} else {
-											mis.keys = append(mis.keys, util.Key(model.Sha3([]byte("made-up key"))))
-										}
-									}
-									sdb := util.NewMemoryNodeDB()
-									_ = db.Iterate(context.Background(), func(ctx context.Context, key util.Key, node util.Node) error { return sdb.PutNode(key, node) })
-									tw := util.NewMerklePatriciaTrie(sdb, util.Sequence(tver), root, statecache.NewEmpty())
-									fail := ""
-									if err := tw.MergeDB(mis, root, nil); err != nil {
-										fail = "MergeDB returned " + err.Error()
-									}
-									if fail == "" {
-										_ = sdb.Iterate(context.Background(), func(ctx context.Context, key util.Key, node util.Node) error {
-											if fail == "" && !bytes.Equal(node.GetHashBytes(), key) {
-												fail = fmt.Sprintf("after MergeDB the trie's store holds under key %x a node hashing to %x", []byte(key), node.GetHashBytes())
-											}
-											return nil
+									// 3b. the donor is a LAYERED store whose own trie has moved on since (it replaced every value, so
+									// the nodes of the state being repaired are marked deleted in the donor's upper level while its
+									// lower level still holds them): the repair must still find them
+									if len(remList) > 0 && order[0] == 0 && sort.IntsAreSorted(order) {
+										lower := util.NewMemoryNodeDB()
+										_ = db.Iterate(context.Background(), func(ctx context.Context, key util.Key, node util.Node) error {
+											return lower.PutNode(key, node.CloneNode())
 										})
+										for i := range donor.keys {
+											_ = lower.PutNode(donor.keys[i], donor.nodes[i].CloneNode())
+										}
+										lvl := util.NewLevelNodeDB(util.NewMemoryNodeDB(), lower, false)
+										dt := util.NewMerklePatriciaTrie(lvl, util.Sequence(origin+1), root, statecache.NewEmpty())
+										for i, k := range keys {
+											var err error
+											if i == 0 && len(keys) > 1 {
+												_, err = dt.Delete(util.Path(k))
+											} else {
+												_, err = dt.Insert(util.Path(k), val("moved-on"))
+											}
+											if err != nil {
+												panic(err)
+											}
+										}
+										for _, via := range []string{"MergeState", "MergeDB"} {
+											sdb := util.NewMemoryNodeDB()
+											_ = db.Iterate(context.Background(), func(ctx context.Context, key util.Key, node util.Node) error { return sdb.PutNode(key, node) })
+											var err error
+											if via == "MergeState" {
+												err = util.MergeState(context.Background(), lvl, sdb)
+											} else {
+												err = util.NewMerklePatriciaTrie(sdb, util.Sequence(tver), root, statecache.NewEmpty()).MergeDB(lvl, root, nil)
+											}
+											fail := ""
+											if err != nil {
+												fail = via + " returned " + err.Error()
+											} else {
+												ts := util.NewMerklePatriciaTrie(sdb, util.Sequence(tver), root, statecache.NewEmpty())
+												if has, err := ts.HasMissingNodes(context.Background()); err != nil || has {
+													fail = fmt.Sprintf("after %s a fresh trie on the store still reports missing nodes (%v, %v)", via, has, err)
+												} else if f := viewOf(util.NewMerklePatriciaTrie(sdb, util.Sequence(tver), root, statecache.NewEmpty()), mdl, paths); f != "" {
+													fail = "after " + via + ": " + f
+												}
+											}
+											if fail != "" {
+												violate("layered-donor:"+via, desc+": repair from a layered donor store whose own trie has moved on: "+fail, replay)
+												return
+											}
+										}
 									}
-									if fail == "" {
-										if f := viewOf(tw, mdl, paths); f != "" {
-											fail = "the repairing trie after MergeDB: " + f
+									// 3d. the repair is made by the trie object that BUILT the state (its node cache still holds every node
+									// that has vanished from the store behind it); other tries on the store must see the repair
+									if len(remList) > 0 && tver == origin && order[0] == 0 && sort.IntsAreSorted(order) {
+										if err := t1.MergeDB(donor, root, nil); err != nil {
+											violate("live-repair", desc+": MergeDB on the trie object that built the state returned "+err.Error(), replay)
+											return
+										}
+										fresh := util.NewMerklePatriciaTrie(db, util.Sequence(tver), root, statecache.NewEmpty())
+										if has, err := fresh.HasMissingNodes(context.Background()); err != nil || has {
+											violate("live-repair", fmt.Sprintf("%s: repaired through the trie object that built the state (warm node cache); a fresh trie on the store still reports missing nodes (%v, %v)", desc, has, err), replay)
+											return
+										}
+										// put the store back into its damaged state for the steps below
+										for _, n := range remList {
+											_ = db.DeleteNode(n.Hash())
+										}
+									}
+									// 3c. the donor's nodes arrive over the wire (Encode -> CreateNode) and carry a version mark that
+									// differs from their origin (as nodes visited by a pruning pass do); the hash covers the origin only
+									if len(remList) > 0 && order[0] == 0 && sort.IntsAreSorted(order) {
+										wire := &donorDB{order: order}
+										for i, n := range donor.nodes {
+											c := n.CloneNode()
+											c.SetVersion(c.GetOrigin() + 3)
+											dn, err := util.CreateNode(bytes.NewReader(c.Encode()))
+											if err != nil {
+												violate("wire-decode", desc+": a marked node does not decode from its own encoding: "+err.Error(), replay)
+												return
+											}
+											wire.keys = append(wire.keys, donor.keys[i])
+											wire.nodes = append(wire.nodes, dn)
+										}
+										sdb := util.NewMemoryNodeDB()
+										_ = db.Iterate(context.Background(), func(ctx context.Context, key util.Key, node util.Node) error { return sdb.PutNode(key, node) })
+										tw := util.NewMerklePatriciaTrie(sdb, util.Sequence(tver), root, statecache.NewEmpty())
+										fail := ""
+										if err := tw.MergeDB(wire, root, nil); err != nil {
+											fail = "MergeDB returned " + err.Error()
 										} else if has, err := util.NewMerklePatriciaTrie(sdb, util.Sequence(tver), root, statecache.NewEmpty()).HasMissingNodes(context.Background()); err != nil || has {
 											fail = fmt.Sprintf("after MergeDB a fresh trie on the store still reports missing nodes (%v, %v)", has, err)
 										} else if f := viewOf(util.NewMerklePatriciaTrie(sdb, util.Sequence(tver), root, statecache.NewEmpty()), mdl, paths); f != "" {
-											fail = "a fresh trie after MergeDB: " + f
+											fail = "after MergeDB: " + f
+										}
+										if fail != "" {
+											violate("wire-donor", desc+": repair from donor nodes that were encoded, carry a version mark (origin+3) and were decoded again: "+fail, replay)
+											return
+										}
+									}
+									// 3e. the donor hands the right nodes out under WRONG keys (a peer answering with mis-filed entries:
+									// keys rotated by one, or a made-up key for a single node): MergeDB files what it takes over under
+									// each node's own hash, so the repair succeeds and no stored key differs from its node's hash
+									if len(remList) > 0 && order[0] == 0 && sort.IntsAreSorted(order) {
+										mis := &donorDB{order: order}
+										for i, n := range donor.nodes {
+											mis.nodes = append(mis.nodes, n.CloneNode())
+											if len(donor.keys) > 1 {
+												mis.keys = append(mis.keys, donor.keys[(i+1)%len(donor.keys)])
+											} else {
+												mis.keys = append(mis.keys, util.Key(model.Sha3([]byte("made-up key"))))
+											}
+										}
+										sdb := util.NewMemoryNodeDB()
+										_ = db.Iterate(context.Background(), func(ctx context.Context, key util.Key, node util.Node) error { return sdb.PutNode(key, node) })
+										tw := util.NewMerklePatriciaTrie(sdb, util.Sequence(tver), root, statecache.NewEmpty())
+										fail := ""
+										if err := tw.MergeDB(mis, root, nil); err != nil {
+											fail = "MergeDB returned " + err.Error()
+										}
+										if fail == "" {
+											_ = sdb.Iterate(context.Background(), func(ctx context.Context, key util.Key, node util.Node) error {
+												if fail == "" && !bytes.Equal(node.GetHashBytes(), key) {
+													fail = fmt.Sprintf("after MergeDB the trie's store holds under key %x a node hashing to %x", []byte(key), node.GetHashBytes())
+												}
+												return nil
+											})
+										}
+										if fail == "" {
+											if f := viewOf(tw, mdl, paths); f != "" {
+												fail = "the repairing trie after MergeDB: " + f
+											} else if has, err := util.NewMerklePatriciaTrie(sdb, util.Sequence(tver), root, statecache.NewEmpty()).HasMissingNodes(context.Background()); err != nil || has {
+												fail = fmt.Sprintf("after MergeDB a fresh trie on the store still reports missing nodes (%v, %v)", has, err)
+											} else if f := viewOf(util.NewMerklePatriciaTrie(sdb, util.Sequence(tver), root, statecache.NewEmpty()), mdl, paths); f != "" {
+												fail = "a fresh trie after MergeDB: " + f
+											}
+										}
+										if fail != "" {
+											violate("misfiled-donor", desc+": repair from a donor that hands the removed nodes out under wrong keys: "+fail, replay)
+											return
+										}
+									}
+									// 3. repair
+									atomic.AddInt64(&repairs, 1)
+									before := donor.fingerprint()
+									t3 := util.NewMerklePatriciaTrie(db, util.Sequence(tver), root, statecache.NewEmpty())
+									if err := t3.MergeDB(donor, root, nil); err != nil {
+										violate("mergedb", desc+": MergeDB returned "+err.Error(), replay)
+										return
+									}
+									fail := ""
+									if after := donor.fingerprint(); after != before {
+										fail = "MergeDB changed the donor store's node objects: " + lineDiff(strings.ReplaceAll(before, ";", "\n"), strings.ReplaceAll(after, ";", "\n"))
+									}
+									if fail == "" && !bytes.Equal(t3.GetRoot(), root) {
+										fail = fmt.Sprintf("after MergeDB the root is %x, was %x", t3.GetRoot(), root)
+									}
+									if fail == "" {
+										t4 := util.NewMerklePatriciaTrie(db, util.Sequence(tver), root, statecache.NewEmpty())
+										if has, err := t4.HasMissingNodes(context.Background()); err != nil || has {
+											fail = fmt.Sprintf("after MergeDB a fresh trie on the store still reports missing nodes (%v, %v)", has, err)
+										} else if f := viewOf(util.NewMerklePatriciaTrie(db, util.Sequence(tver), root, statecache.NewEmpty()), mdl, paths); f != "" {
+											fail = "after MergeDB: " + f
+										} else if f := viewOf(t3, mdl, paths); f != "" {
+											fail = "after MergeDB, the repaired trie itself: " + f
 										}
 									}
 									if fail != "" {
-										violate("misfiled-donor", desc+": repair from a donor that hands the removed nodes out under wrong keys: "+fail, replay)
-										return
+										if tver != origin && len(remList) > 0 && rt.OpenFinding("C17-mergedb-restamps-origin") {
+											knownHit("C17-mergedb-restamps-origin", desc, fail)
+											return
+										}
+										violate("repair:"+fail[:min(len(fail), 30)], desc+": "+fail, replay)
 									}
-								}
-								// 3. repair
-								atomic.AddInt64(&repairs, 1)
-								before := donor.fingerprint()
-								t3 := util.NewMerklePatriciaTrie(db, util.Sequence(tver), root, statecache.NewEmpty())
-								if err := t3.MergeDB(donor, root, nil); err != nil {
-									violate("mergedb", desc+": MergeDB returned "+err.Error(), replay)
-									return
-								}
-								fail := ""
-								if after := donor.fingerprint(); after != before {
-									fail = "MergeDB changed the donor store's node objects: " + lineDiff(strings.ReplaceAll(before, ";", "\n"), strings.ReplaceAll(after, ";", "\n"))
-								}
-								if fail == "" && !bytes.Equal(t3.GetRoot(), root) {
-									fail = fmt.Sprintf("after MergeDB the root is %x, was %x", t3.GetRoot(), root)
-								}
-								if fail == "" {
-									t4 := util.NewMerklePatriciaTrie(db, util.Sequence(tver), root, statecache.NewEmpty())
-									if has, err := t4.HasMissingNodes(context.Background()); err != nil || has {
-										fail = fmt.Sprintf("after MergeDB a fresh trie on the store still reports missing nodes (%v, %v)", has, err)
-									} else if f := viewOf(util.NewMerklePatriciaTrie(db, util.Sequence(tver), root, statecache.NewEmpty()), mdl, paths); f != "" {
-										fail = "after MergeDB: " + f
-									} else if f := viewOf(t3, mdl, paths); f != "" {
-										fail = "after MergeDB, the repaired trie itself: " + f
-									}
-								}
-								if fail != "" {
-									if tver != origin && len(remList) > 0 && rt.OpenFinding("C17-mergedb-restamps-origin") {
-										knownHit("C17-mergedb-restamps-origin", desc, fail)
-										return
-									}
-									violate("repair:"+fail[:min(len(fail), 30)], desc+": "+fail, replay)
-								}
-							}()
+								}()
+							}
 						}
 					}
 				}
